@@ -1,0 +1,16 @@
+//go:build verif
+
+package interp
+
+import (
+	"mvdan.cc/sh/v3/internal"
+	"mvdan.cc/sh/v3/pattern"
+)
+
+// VerifC17Match exposes the matcher used by case clauses and [[ x == pat ]].
+func VerifC17Match(pat, name string) bool { return match(pat, name) }
+
+// VerifC17Matcher exposes internal.ExtendedPatternMatcher.
+func VerifC17Matcher(pat string, mode pattern.Mode) (func(string) bool, error) {
+	return internal.ExtendedPatternMatcher(pat, mode)
+}
